@@ -297,6 +297,7 @@ class SimTransport(asyncio.Transport):
     def stall(self):
         """Peer stops reading: further writes are buffered, drain() suspends."""
         self._stalled = True
+        self.conn.net.log.add("NET.stall", conn=self.conn.id)
 
     def unstall(self):
         if not self._stalled:
